@@ -28,8 +28,12 @@ def params_dicts(fn):
     """[(assign stmt, {key: value expr})] for `self._params = {...}` in fn."""
     out = []
     for s in walk_no_nested(fn.node):
-        if isinstance(s, ast.Assign) and any(is_self_attr(t, fn.self_name, '_params') for t in s.targets) and isinstance(s.value, ast.Dict):
-            out.append((s, {const_value(k): v for k, v in zip(s.value.keys, s.value.values)}))
+        if isinstance(s, ast.Assign) and any(is_self_attr(t, fn.self_name, '_params') for t in s.targets):
+            if isinstance(s.value, ast.Dict):
+                out.append((s, {const_value(k): v for k, v in zip(s.value.keys, s.value.values)}))
+            elif isinstance(s.value, ast.Call) and isinstance(s.value.func, ast.Name) and s.value.func.id == 'dict' and not s.value.args \
+                    and all(k.arg for k in s.value.keywords):
+                out.append((s, {k.arg: k.value for k in s.value.keywords}))
     return out
 
 
@@ -307,6 +311,8 @@ def _is_zero_for_constant(fn, e):
     if const_value(e) in (0, 0.0):
         return True
     # max(X) - min(X) of the same X is zero on constant data
+    if isinstance(e, ast.BinOp) and isinstance(e.op, ast.Sub):
+        e = ast.BinOp(left=_resolve_local(fn, e.left), op=e.op, right=_resolve_local(fn, e.right))
     if isinstance(e, ast.BinOp) and isinstance(e.op, ast.Sub) and isinstance(e.left, ast.Call) and isinstance(e.right, ast.Call):
         if {call_name(e.left), call_name(e.right)} == {'max', 'min'} and [ast.dump(a) for a in e.left.args] == [ast.dump(a) for a in e.right.args]:
             return True
@@ -334,87 +340,120 @@ def _is_repeated_single(e):
 
 
 def d4(ctx, rep):
+    from ..idioms import resolve
     prog = ctx.prog
     kde = prog.cls(KDE)
     m = kde.methods['percent_point']
     up = m.params[1]
-    masks = {}
-    for s in walk_no_nested(m.node):
-        if isinstance(s, ast.Assign) and isinstance(s.targets[0], ast.Name) and s.targets[0].id.startswith('is_'):
-            masks[s.targets[0].id] = s.value
-    need = {'is_one', 'is_zero', 'is_valid'}
-    if not need <= set(masks):
-        rep.undecided('D4.quantile', m, m.node.name, 'mask variables not recognised', construct='masks')
-        return
-
-    def cmp_ok(e, op, rhs_pred):
-        return isinstance(e, ast.Compare) and len(e.ops) == 1 and isinstance(e.ops[0], op) and isinstance(e.left, ast.Name) \
-            and e.left.id == up and rhs_pred(e.comparators[0])
-
     eps = lambda x: prog.resolve(m.module, x) == 'copulas.utils.EPSILON'
     one_minus_eps = lambda x: isinstance(x, ast.BinOp) and isinstance(x.op, ast.Sub) and const_value(x.left) in (1, 1.0) and eps(x.right)
-    rep.check('D4.quantile', m, masks['is_one'], cmp_ok(masks['is_one'], ast.GtE, one_minus_eps), 'is_one = U >= 1 - EPSILON', 'upper mask is not U >= 1 - EPSILON')
-    rep.check('D4.quantile', m, masks['is_zero'], cmp_ok(masks['is_zero'], ast.LtE, eps), 'is_zero = U <= EPSILON', 'lower mask is not U <= EPSILON')
-    v = masks['is_valid']
-    good = isinstance(v, ast.UnaryOp) and isinstance(v.op, ast.Invert) and isinstance(v.operand, ast.BinOp) and isinstance(v.operand.op, ast.BitOr) \
-        and {getattr(v.operand.left, 'id', None), getattr(v.operand.right, 'id', None)} == {'is_one', 'is_zero'}
-    rep.check('D4.quantile', m, v, good, 'is_valid = ~(is_zero | is_one)', 'the valid mask is not the complement of the two end masks')
+    # masks are recognised by what they compute, not by their names
+    one = zero = valid = None
+    assigns = [s for s in walk_no_nested(m.node) if isinstance(s, ast.Assign) and isinstance(s.targets[0], ast.Name)]
+    for s in assigns:
+        v = s.value
+        if isinstance(v, ast.Compare) and len(v.ops) == 1 and isinstance(v.left, ast.Name) and v.left.id == up:
+            if one_minus_eps(v.comparators[0]) or const_value(v.comparators[0]) in (1, 1.0):
+                one = (s.targets[0].id, s)
+            elif eps(v.comparators[0]) or const_value(v.comparators[0]) in (0, 0.0):
+                zero = (s.targets[0].id, s)
+    for s in assigns:
+        v = s.value
+        if isinstance(v, ast.UnaryOp) and isinstance(v.op, ast.Invert) and one and zero:
+            valid = (s.targets[0].id, s)
+    if not (one and zero and valid):
+        rep.undecided('D4.quantile', m, m.node.name, 'end / valid masks not recognised', construct='masks')
+        return
+    o, z, va = one[1].value, zero[1].value, valid[1].value
+    rep.check('D4.quantile', m, one[1], isinstance(o.ops[0], ast.GtE) and one_minus_eps(o.comparators[0]), 'upper mask = U >= 1 - EPSILON', 'upper mask is not U >= 1 - EPSILON',
+              construct='upper mask')
+    rep.check('D4.quantile', m, zero[1], isinstance(z.ops[0], ast.LtE) and eps(z.comparators[0]), 'lower mask = U <= EPSILON', 'lower mask is not U <= EPSILON',
+              construct='lower mask')
+    good = isinstance(va.operand, ast.BinOp) and isinstance(va.operand.op, ast.BitOr) \
+        and {getattr(va.operand.left, 'id', None), getattr(va.operand.right, 'id', None)} == {one[0], zero[0]}
+    rep.check('D4.quantile', m, valid[1], good, 'valid mask = ~(lower mask | upper mask)', 'the valid mask is not the complement of the two end masks', construct='valid mask')
+    vname = valid[0]
     # +-inf
-    for mask, sign in (('is_one', 1), ('is_zero', -1)):
+    for (mask, _s), sign, label in ((one, 1, 'upper mask'), (zero, -1, 'lower mask')):
         st = [s for s in walk_no_nested(m.node) if isinstance(s, ast.Assign) and isinstance(s.targets[0], ast.Subscript)
               and isinstance(s.targets[0].slice, ast.Name) and s.targets[0].slice.id == mask]
-        val = st[0].value if st else None
-        txt = ast.unparse(val).replace(' ', '') if val is not None else ''
+        if not st:
+            rep.undecided('D4.quantile', m, m.node.name, f'value stored for the {label} not found', construct=f'{label} value')
+            continue
+        txt = ast.unparse(st[0].value).replace(' ', '')
         good = ('inf' in txt) and (('-' in txt) == (sign < 0))
-        rep.check('D4.quantile', m, st[0] if st else m.node.name, good, f'{mask} -> {"+" if sign > 0 else "-"}inf',
-                  f'probabilities selected by {mask} are not mapped to {"+" if sign > 0 else "-"}inf', construct=f'{mask} value')
-    # root function
+        rep.check('D4.quantile', m, st[0], good, f'{label} -> {"+" if sign > 0 else "-"}inf',
+                  f'probabilities selected by the {label} are not mapped to {"+" if sign > 0 else "-"}inf', construct=f'{label} value')
+
+    def is_valid_targets(e):
+        e = resolve(m.node, e)
+        return isinstance(e, ast.Subscript) and isinstance(e.value, ast.Name) and e.value.id == up and isinstance(e.slice, ast.Name) and e.slice.id == vname
+
+    def solver_names(call):
+        f = resolve(m.node, call.func) if isinstance(call.func, ast.Name) else call.func
+        cands = [f.body, f.orelse] if isinstance(f, ast.IfExp) else [f]
+        out = {prog.resolve(m.module, c) for c in cands}
+        return out if out and all(x in ('copulas.optimize.bisect', 'copulas.optimize.chandrupatla') for x in out) else None
+
     fdefs = [f for f in prog.functions.values() if f.outer is m]
-    solver_calls = [c for c in walk_no_nested(m.node) if isinstance(c, ast.Call) and prog.resolve(m.module, c.func) in (
-        'copulas.optimize.bisect', 'copulas.optimize.chandrupatla')]
-    rep.floor('D4.quantile', 'solver calls in GaussianKDE.percent_point', len(solver_calls), 2)
+    solver_calls = [c for c in walk_no_nested(m.node) if isinstance(c, ast.Call) and solver_names(c)]
+    if not solver_calls:
+        rep.undecided('D4.quantile', m, m.node.name, 'no call of the vectorised root finders recognised', construct='solver calls')
     for c in solver_calls:
+        nm = '/'.join(sorted(x.split('.')[-1] for x in solver_names(c)))
         f0 = c.args[0] if c.args else None
         fd = [f for f in fdefs if isinstance(f0, ast.Name) and f.name == f0.id]
-        ok_f = False
-        if fd:
+        if not fd:
+            rep.undecided('D4.quantile', m, c, 'root function is not a nested def', construct=f'root function of {nm}')
+        else:
             rets = [n for n in walk_no_nested(fd[0].node) if isinstance(n, ast.Return)]
+            ok_f = None
             if len(rets) == 1 and isinstance(rets[0].value, ast.BinOp) and isinstance(rets[0].value.op, ast.Sub):
                 l, r = rets[0].value.left, rets[0].value.right
-                ok_f = isinstance(l, ast.Call) and is_self_attr(l.func, m.self_name) and l.func.attr in ('cumulative_distribution', 'cdf') \
-                    and l.args and isinstance(l.args[0], ast.Name) and l.args[0].id == fd[0].params[0] \
-                    and isinstance(r, ast.Subscript) and isinstance(r.value, ast.Name) and r.value.id == up \
-                    and isinstance(r.slice, ast.Name) and r.slice.id == 'is_valid'
-        rep.check('D4.quantile', m, c, ok_f, 'root function = cumulative_distribution(X) - U[is_valid]',
-                  'the root function is not cdf(X) minus the valid targets (same mask)', construct=f'root function of {call_name(c)}')
-        # brackets sized by the same mask
-        sizes_ok = True
+                is_cdf = isinstance(l, ast.Call) and is_self_attr(l.func, m.self_name) and l.func.attr in ('cumulative_distribution', 'cdf') \
+                    and l.args and isinstance(l.args[0], ast.Name) and l.args[0].id == fd[0].params[0]
+                ok_f = is_cdf and is_valid_targets(r)
+                rep.check('D4.quantile', m, c, bool(ok_f), 'root function = cumulative_distribution(X) - U[valid]',
+                          'the root function is not cdf(X) minus the valid targets (same mask)', construct=f'root function of {nm}')
+            else:
+                rep.undecided('D4.quantile', m, c, 'form of the root function not recognised', construct=f'root function of {nm}')
+        sizes = []
         for a in c.args[1:3]:
             d = None
             if isinstance(a, ast.Name):
                 defs = [s for s in walk_no_nested(m.node) if isinstance(s, ast.Assign) and isinstance(s.targets[0], ast.Name)
                         and s.targets[0].id == a.id and isinstance(s.value, ast.Call) and call_name(s.value) == 'full']
                 d = defs[-1].value if defs else None
-            if d is None:
-                sizes_ok = False
+            if d is None or not d.args:
+                sizes.append(None)
                 continue
-            sh = d.args[0] if d.args else None
-            sizes_ok = sizes_ok and isinstance(sh, ast.Attribute) and sh.attr == 'shape' and isinstance(sh.value, ast.Subscript) \
-                and isinstance(sh.value.slice, ast.Name) and sh.value.slice.id == 'is_valid'
-        rep.check('D4.quantile', m, c, sizes_ok, 'brackets have the shape of U[is_valid]', 'the brackets are not sized by the valid mask',
-                  construct=f'brackets of {call_name(c)}')
+            sh = d.args[0]
+            sizes.append(isinstance(sh, ast.Attribute) and sh.attr == 'shape' and is_valid_targets(sh.value))
+        if any(x is None for x in sizes) or not sizes:
+            rep.undecided('D4.quantile', m, c, 'construction of the brackets not recognised', construct=f'brackets of {nm}')
+        else:
+            rep.check('D4.quantile', m, c, all(sizes), 'brackets have the shape of U[valid]', 'the brackets are not sized by the valid mask', construct=f'brackets of {nm}')
         st = c._parent
-        scat = isinstance(st, ast.Assign) and isinstance(st.targets[0], ast.Subscript) and isinstance(st.targets[0].slice, ast.Name) \
-            and st.targets[0].slice.id == 'is_valid'
-        rep.check('D4.quantile', m, st, scat, 'result scattered back through is_valid', 'the solver result is not written back through the valid mask',
-                  construct=f'scatter of {call_name(c)}')
-    # bracket values come from _get_bounds: lower < upper
+        if isinstance(st, ast.Assign) and isinstance(st.targets[0], ast.Subscript):
+            scat = isinstance(st.targets[0].slice, ast.Name) and st.targets[0].slice.id == vname
+            rep.check('D4.quantile', m, st, scat, 'result scattered back through the valid mask', 'the solver result is not written back through the valid mask',
+                      construct=f'scatter of {nm}')
+        else:
+            rep.undecided('D4.quantile', m, c, 'how the solver result is stored was not recognised', construct=f'scatter of {nm}')
     gb = kde.methods.get('_get_bounds')
     if gb is not None:
         rets = [n for n in walk_no_nested(gb.node) if isinstance(n, ast.Return) and isinstance(n.value, ast.Tuple)]
-        if rets:
-            lo, hi = (single_def(gb.node, e.id) if isinstance(e, ast.Name) else e for e in rets[0].value.elts)
-            good = isinstance(lo, ast.BinOp) and isinstance(lo.op, ast.Sub) and isinstance(lo.left, ast.Call) and call_name(lo.left) == 'min' \
-                and isinstance(hi, ast.BinOp) and isinstance(hi.op, ast.Add) and isinstance(hi.left, ast.Call) and call_name(hi.left) == 'max'
-            rep.check('D4.quantile', gb, rets[0], good, 'bounds = (min - margin, max + margin)', 'the search bounds are not (min - margin, max + margin) of the data',
-                      construct='search bounds')
+        if rets and len(rets[0].value.elts) == 2:
+            lo, hi = (resolve(gb.node, e) for e in rets[0].value.elts)
+
+            def ext(e, which):
+                e = resolve(gb.node, e)
+                return isinstance(e, ast.Call) and call_name(e) == which
+            shape_lo = isinstance(lo, ast.BinOp) and isinstance(lo.op, (ast.Sub, ast.Add))
+            shape_hi = isinstance(hi, ast.BinOp) and isinstance(hi.op, (ast.Sub, ast.Add))
+            if shape_lo and shape_hi and (ext(lo.left, 'min') or ext(lo.left, 'max')) and (ext(hi.left, 'min') or ext(hi.left, 'max')):
+                good = isinstance(lo.op, ast.Sub) and ext(lo.left, 'min') and isinstance(hi.op, ast.Add) and ext(hi.left, 'max')
+                rep.check('D4.quantile', gb, rets[0], good, 'bounds = (min - margin, max + margin)', 'the search bounds are not (min - margin, max + margin) of the data',
+                          construct='search bounds')
+            else:
+                rep.undecided('D4.quantile', gb, rets[0], 'form of the search bounds not recognised', construct='search bounds')
